@@ -51,7 +51,8 @@ def wfTag (p : Program) : String :=
 def handlePT (sexp : String) : String :=
   withProgram sexp fun p =>
     let b (x : Bool) := if x then "1" else "0"
-    "PT " ++ b (PT.program p) ++ " " ++ b (PT.strictSs p) ++ " " ++ b (typedProgram p) ++ " " ++ b (PT.sigSs [] p)
+    "PT " ++ b (PT.program p) ++ " " ++ b (PT.strictSs p) ++ " " ++ b (typedProgram p) ++ " " ++ b (PT.sigSs [] p) ++
+      " " ++ b (PT.useSs [] p)
 
 def handleBash (sexp : String) : String :=
   withProgram sexp fun p =>
